@@ -28,7 +28,7 @@ type TLCOpts struct {
 	Texts    map[string]string // extra files with literal content
 	Defines  map[string]string // overrides: generates a wrapper module "<Module>_run" with these definitions? (unused)
 	Coverage bool
-	DFS      bool // use StateDeque queue (depth-first) for trace validation
+	DFS      bool                      // use StateDeque queue (depth-first) for trace validation
 	OnTrace  func(raw json.RawMessage) // called for each <<"TRACE", "...">> line
 	OnObs    func(line string)         // called for each line starting with <<"OBS"
 	KeepOut  bool
